@@ -41,6 +41,8 @@ the rules see:
   S13b scopes             a local assigned in several blocks, each use following its own assignment: one name per assignment
   S21 match               `match x: case "a": A case B(): C case _: D`  ->  `if x == "a": A elif isinstance(x, B): C else: D`
   S22 walrus              `if (m := f(x)) is not None: ...`  ->  `m = f(x)` ; `if m is not None: ...`
+  S23 conditional loops   `for x in (A if c else B): S`  ->  `if c: for x in A: S else: for x in B: S` ; `for x in (): S` -> nothing
+  S24 generator loops     `for x in (E(c) for c in it): S`  ->  `for c in it: x = E(c) ; S`
   S12 literal loops       `for x in (a, b): S(x)`  ->  `S(a)` ; `S(b)`   (at most four simple elements, no
                           `break`, `continue` only as leading guards, x not used afterwards)
 
@@ -872,6 +874,33 @@ class Canon:
             if r7 is not None:
                 return r7, 0
             return None
+        if isinstance(s, (ast.For, ast.AsyncFor)) and not s.orelse:
+            # S23 a loop over a conditional iterable is a conditional of loops; a loop over `()` is nothing
+            if isinstance(s.iter, ast.IfExp) and is_bool_expr(s.iter.test) or (isinstance(s.iter, ast.IfExp) and _simple(s.iter.test)):
+                a = copy.copy(s)
+                a.iter = s.iter.body
+                b = copy.copy(s)
+                b.iter = s.iter.orelse
+                b.body = copy.deepcopy(s.body)
+                b.target = copy.deepcopy(s.target)
+                return [_loc(ast.If(test=s.iter.test, body=[a], orelse=[b]), s)], 0
+            if isinstance(s.iter, (ast.Tuple, ast.List)) and not s.iter.elts:
+                return [], 0
+            # S24 a loop over a generator expression binds the element inside the loop
+            if (
+                isinstance(s.iter, ast.GeneratorExp) and len(s.iter.generators) == 1 and not s.iter.generators[0].ifs
+                and bool(s.iter.generators[0].is_async) == isinstance(s, ast.AsyncFor)
+                and isinstance(s.target, ast.Name) and not _mentions(s.iter.elt, {s.target.id})
+            ):
+                g = s.iter.generators[0]
+                inner_names = _target_names(g.target)
+                facts = NameFacts(self.fn)
+                if not (inner_names & (set(facts.stores) | set(facts.loads) | facts.special)):
+                    bind = _loc(ast.Assign(targets=[ast.Name(id=s.target.id, ctx=ast.Store())], value=s.iter.elt), s)
+                    s.target = _store(g.target)
+                    s.iter = g.iter
+                    s.body = [bind] + s.body
+                    return [s], 0
         if isinstance(s, ast.For) and not s.orelse:
             r4 = self._unroll(s, rest)
             if r4 is not None:
